@@ -1229,9 +1229,10 @@ class Value(metaclass=ABCMeta):
             If :py:`width` is negative.
         """
         offset = Value.cast(offset)
-        if (type(offset) is Const and isinstance(width, int) and
+        if (type(offset) is Const and not offset.shape().signed and isinstance(width, int) and
                 offset.value + width <= len(self)):
             return self[offset.value:offset.value + width]
+        # A signed (e.g. negative constant) offset is refused by `Part`, whether it is constant or not.
         return Part(self, offset, width, stride=1, src_loc_at=1)
 
     def word_select(self, offset, width):
@@ -1264,9 +1265,10 @@ class Value(metaclass=ABCMeta):
             If :py:`width` is negative.
         """
         offset = Value.cast(offset)
-        if (type(offset) is Const and isinstance(width, int) and
+        if (type(offset) is Const and not offset.shape().signed and isinstance(width, int) and
                 (offset.value + 1) * width <= len(self)):
             return self[offset.value * width:(offset.value + 1) * width]
+        # A signed (e.g. negative constant) offset is refused by `Part`, whether it is constant or not.
         return Part(self, offset, width, stride=width, src_loc_at=1)
 
     def replicate(self, count):
